@@ -677,6 +677,17 @@ func (i *interpreter) conv(tdst, tsrc types.Type, x value) value {
 		if ks == types.Bool && kd == types.Bool {
 			return x
 		}
+		if isIntKind(ks) && kd == types.String {
+			// string(rune): ASCII only
+			t64 := i.tc.ZExt(x, 64)
+			if kindSigned(ks) {
+				t64 = i.tc.SExt(x, 64)
+			}
+			if !i.p.branch(i.tc.Cmp(OpUlt, t64, i.tc.Const(64, 0x80))) {
+				unsupported("string(rune) of a symbolic non-ASCII value")
+			}
+			return &symStr{[]value{wrapK(types.Uint8, i.tc.Extract(t64, 7, 0))}}
+		}
 		if !isIntKind(ks) || !isIntKind(kd) {
 			unsupported("conversion %s -> %s of symbolic value", tsrc, tdst)
 		}
@@ -1163,12 +1174,42 @@ func (i *interpreter) callBuiltin(caller *frame, callpos token.Pos, fn *ssa.Buil
 	panic(engineFault{"unknown built-in: " + fn.Name()})
 }
 
-func rangeIter(x value) iter {
+type symStrIter struct {
+	i *interpreter
+	s *symStr
+	k int
+}
+
+func (it *symStrIter) next() tuple {
+	if it.k >= len(it.s.b) {
+		return tuple{false, nil, nil}
+	}
+	b := it.s.b[it.k]
+	var r value
+	switch b := b.(type) {
+	case uint8:
+		if b >= 0x80 {
+			unsupported("range over symbolic string with non-ASCII bytes")
+		}
+		r = int32(b)
+	case *Term:
+		if !it.i.p.branch(it.i.tc.Cmp(OpUlt, b, it.i.tc.Const(8, 0x80))) {
+			unsupported("range over symbolic string with non-ASCII bytes")
+		}
+		r = wrapK(types.Int32, it.i.tc.ZExt(b, 32))
+	}
+	it.k++
+	return tuple{true, it.k - 1, r}
+}
+
+func (i *interpreter) rangeIter(x value) iter {
 	switch x := x.(type) {
 	case *omap:
 		return &omapIter{m: x}
 	case string:
 		return &stringIter{s: x}
+	case *symStr:
+		return &symStrIter{i: i, s: x}
 	}
 	panic(engineFault{fmt.Sprintf("cannot range over %T", x)})
 }
